@@ -4,7 +4,8 @@
 #   affected packages (or the full pinned suite with "full") still pass.  On success copies
 #   it to /verif/seeded/<ID>/ with a "confirmed" record in meta.json.
 id=$1; mode=$2
-src=/var/tmp/seedout/$id
+src=${SEEDSRC:-/var/tmp/seedout}/$id
+name=${SEEDNAME:-$id}
 [ -f $src/patch.diff ] || { echo "no patch for $id"; exit 2; }
 export GOFLAGS=-mod=mod GOSUMDB=off GOTOOLCHAIN=local
 unset GOPROXY
@@ -21,7 +22,7 @@ rundemo() { # $1 = repo path
   [ -f go.mod ] || printf 'module seeddemo\n\ngo 1.18\n\nrequire github.com/goplus/xgo v0.0.0\n' > go.mod
   go mod edit -replace github.com/goplus/xgo=$1
   cp $1/go.sum go.sum
-  XGO_REPO=$1 REPO=$1 timeout 900 go test -count=1 . 2>&1
+  XGO_REPO=$1 REPO=$1 timeout 900 go test -count=1 -vet=off . 2>&1
 }
 with=$(rundemo $wt); rcw=$?
 without=$(rundemo /repo); rco=$?
@@ -53,8 +54,8 @@ else
 fi
 echo "$tests" | tail -8
 if [ $trc -ne 0 ]; then echo "CONFIRM $id: existing tests fail with the change"; cleanup; exit 1; fi
-mkdir -p /verif/seeded/$id && cp -r $src/* /verif/seeded/$id/
-python3 - "$id" "$mode" "$with" "$without" "$tests" <<'PY'
+mkdir -p /verif/seeded/$name && cp -r $src/* /verif/seeded/$name/
+python3 - "$name" "$mode" "$with" "$without" "$tests" <<'PY'
 import json,sys
 id,mode,w,wo,t=sys.argv[1:6]
 p='/verif/seeded/%s/meta.json'%id
